@@ -147,13 +147,32 @@ def _sweep(run, prog, ts):
     if ok:
         dev, dctx = dels[0]
         res = ("sub", ("field0", "data_reservoirs"), feat)
+        paths_forms = [enum[0].res] + [("new", "@", k, (enum[0].res,)) for k in ("set", "frozenset", "list", "tuple")]
+
+        def stale_test(c, key):
+            return c[0] == "cmp" and c[1] == "not in" and c[2] == key and ir.strip_sites(c[3]) in [ir.strip_sites(p) for p in paths_forms]
+
+        def keys_of(t):
+            """t enumerates the keys of the feature's reservoir dict"""
+            return t == res or (t[0] == "res" and t[2] == ".keys" and t[3] == (res,))
         lp = dctx.loops[-1] if dctx.loops else None
-        cond = ("cmp", "not in", dev.key, enum[0].res)
-        copy_iter = lp is not None and lp.iter[0] == "new" and lp.iter[2] in ("list", "tuple", "set")
-        ok = dev.cont == res and lp is not None and dev.key == ("elem", lp.lid) and dctx.guards == (cond,) and copy_iter
+        ok = dev.cont == res and lp is not None and dev.key == ("elem", lp.lid)
         if not ok:
-            why = ("the loop iterates the live dict while deleting from it" if lp is not None and not copy_iter else
-                   f"deletion guarded by {ir.show_nl(dctx.guards[-1])[:100] if dctx.guards else 'nothing'}")
+            why = "the deletion is not a per-id deletion from the feature's reservoirs"
+        else:
+            it = lp.iter
+            # (a) copy of all ids, deletion guarded by the stale test
+            form_a = it[0] == "new" and it[2] in ("list", "tuple", "set") and len(it[3]) == 1 and keys_of(it[3][0]) and \
+                len(dctx.guards) == 1 and stale_test(dctx.guards[0], dev.key)
+            # (b) materialised list of the stale ids, unconditional deletion
+            form_b = it[0] == "comp" and it[1] in ("list", "set") and keys_of(it[3]) and it[5] == ("elem", it[2]) and \
+                len(it[6]) == 1 and stale_test(it[6][0], ("elem", it[2])) and not dctx.guards
+            ok = form_a or form_b
+            if not ok:
+                live = keys_of(it)
+                why = ("the loop iterates the live dict while deleting from it" if live else
+                       f"ids are deleted under {ir.show_nl(dctx.guards[-1])[:100] if dctx.guards else ir.show_nl(it)[:100]}, "
+                       f"not exactly when they are missing from the enumerated tree paths")
     run.check(ok, "SWEEP", "predicate", f"{s.path}:{s.fn.lineno}", fq, f"sweep: {why or 'ok'}",
               f"the sweep must delete exactly the reservoir ids that are not among the current tree's enumerated paths, "
               f"iterating over a copy of the ids: {why}", "for id in list(ids): if id not in all_paths: del reservoirs[id]")
@@ -179,7 +198,7 @@ def _tok(t, node, out, branch_terms):
     elif t[0] == "res" and t[2] == ".join" and len(t[3]) == 2 and t[3][0][0] == "const" and t[3][1][0] == "tuple":
         sep = t[3][0][1]
         for i, it in enumerate(t[3][1][1]):
-            if i:
+            if i and sep:
                 out.append(("lit", sep))
             _tok(it, node, out, branch_terms)
     elif t[0] == "fn" and t[1] == "str" and len(t[2]) == 1:
@@ -208,24 +227,44 @@ def _merge_lits(toks):
     return out
 
 
+def _strip_prefix(toks):
+    toks = [t for t in toks if t != ("lit", "")]
+    if toks and toks[0] == ("prefix",):
+        toks = toks[1:]
+    return toks
+
+
 def _tokens(run, prog, ts):
+    from .algebra import arms
+    from .common import list_build
     w = prog.summarise(ts, WRITER)
     fqw = f"{TS}.{WRITER}"
     run.analysed_fn(fqw)
     loops = [ev for ev, _ in walk(w.events, structural=True) if isinstance(ev, ir.Loop) and not ev.comp]
-    run.need(len(loops) == 1 and loops[0].carried, "leaf-id writer is not a single accumulating loop")
+    run.need(len(loops) == 1, "leaf-id writer is not a single loop over the walk through the tree")
     L = loops[0]
-    name, (init, nxt) = next(iter(L.carried.items()))
     node = ("elem", L.lid)
-    from .algebra import arms
+    walk_ok = any(t[0] == "res" and t[2].endswith("walk_through_tree") for t in ir.subterms(L.iter))
+    run.check(walk_ok, "AGREE", "writer.walk", f"{w.path}:{L.line}", fqw, f"writer iterates {ir.show_nl(L.iter)[:80]}",
+              "the leaf id must be built along walk_through_tree of the point", "id built along the walk")
+    r = w.ret
+    segment = None
+    if r[0] == "eta" and r[1] == L.lid and ("self." not in r[2]):
+        init, nxt = L.carried.get(r[2], (None, None))
+        if init == ("const", ""):
+            segment = nxt
+    elif r[0] == "res" and r[2] == ".join" and len(r[3]) == 2 and r[3][0] == ("const", ""):
+        lb = list_build(r[3][1], w.events)
+        if lb is not None and len(lb.entries) == 1 and lb.entries[0][1] is not None and \
+                [l for l in lb.entries[0][1].loops] == [L] and not lb.entries[0][1].guards:
+            segment = lb.entries[0][0]
+    run.need(segment is not None, f"leaf-id writer has an unrecognised shape: {ir.show_nl(r)[:100]}")
     w_templates = {}
-    for facts, t in arms(nxt):
+    for facts, t in arms(segment):
         toks = []
         _tok(t, node, toks, ())
         kind = "branch" if any(f == ("fn", "hasattr", (node, ("const", "repr_split"))) for f in facts) else "leaf"
-        w_templates[kind] = _merge_lits(toks)
-    run.check(const_value(init) is None and init == ("const", ""), "AGREE", "writer.start", f"{w.path}:{L.line}", fqw,
-              f"initial id {ir.show_nl(init)}", "the leaf id must start empty", "id starts as ''")
+        w_templates[kind] = _strip_prefix(_merge_lits(toks))
     e = prog.summarise_func(ENUM)
     _, efn = prog.func(ENUM)
     enode = ("param", efn.args.args[0].arg)
@@ -238,11 +277,11 @@ def _tokens(run, prog, ts):
                 lp = ctx.loops[-1] if ctx.loops else None
                 branch = (("tget", ("elem", lp.lid), 0),) if lp is not None else ()
                 _tok(wp, enode, toks, branch)
-                e_templates["branch"] = _merge_lits(toks)
+                e_templates["branch"] = _strip_prefix(_merge_lits(toks))
         if isinstance(ev, ir.Mut) and ev.method == "append" and ev.args:
             toks = []
             _tok(ev.args[0], enode, toks, ())
-            e_templates["leaf"] = _merge_lits(toks)
+            e_templates["leaf"] = _strip_prefix(_merge_lits(toks))
     for kind in ("branch", "leaf"):
         a, b = w_templates.get(kind), e_templates.get(kind)
         run.check(a is not None and a == b, "AGREE", f"template.{kind}", f"{w.path}:{L.line}", fqw,
